@@ -62,6 +62,9 @@ class Run:
         self.outdir = os.path.join(OUT, pid)
         os.makedirs(self.outdir, exist_ok=True)
         os.makedirs(EVIDENCE, exist_ok=True)
+        for f in os.listdir(self.outdir):           # replay files of an earlier run with the same tier and seed
+            if f.startswith("replay-%s-%d-" % (tier, seed)):
+                os.unlink(os.path.join(self.outdir, f))
         self.violations = []      # dicts with 'replay'
         self.known_hits = {}      # key -> text
         self.cov = {"evaluations": 0, "distinct_nontrivial": 0, "states": 0, "transitions": 0,
@@ -150,11 +153,13 @@ class Run:
                     last = json.loads(l).get("t")
                     break
             ids = [b.get("id") for b in rest]
+            if last is not None:
+                last = last.split("#")[0]          # drivers that repeat a behaviour label the runs id#n
             if last is None or last not in ids or crashes is None:
                 self.log(p.stdout[-2000:] + p.stderr[-4000:])
                 raise Inconclusive("harness %s failed (rc=%d) and the failure cannot be attributed to a behaviour" % (cmd, p.returncode))
             k = ids.index(last)
-            keep = [l for l in lines if ('"t":"%s"' % last) not in l]
+            keep = [l for l in lines if ('"t":"%s"' % last) not in l and ('"t":"%s#' % last) not in l]
             open(out, "a").write("".join(keep))
             sig = [x for x in p.stderr.splitlines() if x.startswith("panic:") or x.startswith("fatal error:") or "WARNING: DATA RACE" in x]
             crashes.append({"behaviour": rest[k], "rc": p.returncode, "signature": sig[:3], "stderr_tail": p.stderr[-3000:]})
